@@ -4,6 +4,9 @@ import json, os, re, subprocess, sys
 prop, var = sys.argv[1], sys.argv[2]
 wt = f"/tmp/mut3-{prop}" if var in ("e", "f") else (f"/tmp/mut2-{prop}" if var in ("c", "d") else f"/tmp/mut-{prop}")
 d = f"/tmp/mut-out/{prop}/{var}"
+if prop.startswith("A"):
+    # fourth round: organised by code area
+    wt, d = f"/tmp/mut4-{prop}", f"/tmp/mut-out4/{prop}/{var}"
 meta = json.load(open(f"{d}/meta.json"))
 cmdtxt = meta["demo_cmd"]
 m = re.search(r"((?:tests/tests|logos-codegen/tests|logos-cli/tests|examples|tests/src|logos-codegen/src|src)/[A-Za-z0-9_/]+\.rs)", cmdtxt.replace(wt + "/", ""))
